@@ -41,6 +41,7 @@ struct Spec {
     // arrival shaping: 'holder' first takes the lock, the requesters then queue up one after the other, then the holder releases
     char holder = 0;                    // 0, 'R' or 'W'
     bool ordered_arrival = false;
+    std::vector<std::string> late;      // scripts of threads that are started after the ordered ones have queued up and arrive whenever the schedule lets them
     int rendezvous = 0;                 // C12(iii): number of readers that meet at a barrier inside the read section
 };
 
@@ -153,6 +154,8 @@ void run(const Spec &s) {
                 th.emplace_back([&res, &s, i] { for (char op : s.scripts[i]) section(*res, op, s.guards, [] { vs_point(1); }); });
                 if (s.ordered_arrival) vs_block_until(pred_parked, (void *)(long)(i + 1));
             }
+            for (size_t i = 0; i < s.late.size(); i++)
+                th.emplace_back([&res, &s, i] { for (char op : s.late[i]) section(*res, op, s.guards, [] { vs_point(1); }); });
             vs_point(2);
         });
     } else {
@@ -179,9 +182,11 @@ std::string join(const std::vector<std::string> &v) { std::string s; for (auto &
 void add(VSuite &suite, Spec s, int bound, const std::string &flavour, bool unlock_points = false) {
     VProgram p;
     std::string nm = s.rendezvous ? "rendezvous" + std::to_string(s.rendezvous) : (s.holder ? std::string("hold") + s.holder + (s.ordered_arrival ? "-ordered-" : "-") : std::string()) + join(s.scripts);
+    if (!s.late.empty()) nm += "+late-" + join(s.late);
     p.name = nm + (s.guards ? "-guards" : "");
     p.describe = s.rendezvous ? "main holds the write lock while " + std::to_string(s.rendezvous) + " readers queue up one after the other; after it unlocks the readers wait for each other inside the read section"
                  : std::string(s.holder ? std::string("main holds ") + s.holder + " while the threads " + (s.ordered_arrival ? "queue up in order" : "start") + "; " : "") +
+                   (s.late.empty() ? std::string() : "late threads [" + join(s.late) + "] start while the holder still holds and arrive at any time; ") +
                    "threads run the scripts [" + join(s.scripts) + "] (R/W = one read/write critical section with a scheduling point inside)" + (s.guards ? " using ReadLock/WriteLock guards" : " using raw lock*/unlock* calls");
     p.bound = bound;
     p.unlock_points = unlock_points;
@@ -227,10 +232,15 @@ bool provider(const std::string &prop, const std::string &tier, const std::strin
 
     if (prop == "C15") {
         // race pass: the same bodies under ThreadSanitizer; oracles off, every report counts
-        int b = thorough ? 2 : 1;
+        int b = thorough ? 3 : 2;
         for (auto &v : multisets(3, {"R", "W"})) { Spec s = base; s.scripts = v; add(suite, s, b, flavour); }
         { Spec s = base; s.scripts = {"RW", "WR"}; s.guards = true; add(suite, s, b, flavour); }
         { Spec s = base; s.rendezvous = 2; add(suite, s, b, flavour); }
+        suite.rule = "every schedule with at most c preemptions (c = 0..bound) of the Resource, ThreadPool and ConcurrentSubjectRouter programs, executed under ThreadSanitizer with an uninstrumented scheduler: "
+                     "the happens-before detector judges every enumerated schedule; any report is a violation; non-trivial = some thread really blocked";
+        suite.assumptions = {"ThreadSanitizer's bounded access history per memory location", "modelled mutexes are announced to ThreadSanitizer with __tsan_acquire/__tsan_release; scheduler hand-offs add no happens-before edges",
+                             "intended use as the property states it: one owner thread for ThreadPool, callbacks that do not call the router", "bounds as listed per program"};
+        suite.relevant = [](int o, const std::string &, const std::string &) { return o == VS_OUT_RACE; };
         return true;
     }
 
@@ -271,6 +281,14 @@ bool provider(const std::string &prop, const std::string &tier, const std::strin
             Spec s = base; s.holder = sh[0][0]; s.ordered_arrival = true;
             std::stringstream ss(sh[1]); std::string tok; while (std::getline(ss, tok, ',')) s.scripts.push_back(tok);
             add(suite, s, 2, flavour);
+        }
+        if (prop == "C03") {
+            // a queue of two or three waiting requests plus one late arrival of either kind: the late request must not overtake anything that was
+            // already waiting when it was issued (e.g. a reader joining the active read batch while a second writer is still queued)
+            for (char holder : {'W', 'R'}) for (int k = 2; k <= 3; k++) for (auto &q : sequences(k, {"R", "W"})) {
+                if (holder == 'R' && q[0] != "W") continue;
+                for (const char *l : {"R", "W"}) { Spec s = base; s.holder = holder; s.ordered_arrival = true; s.scripts = q; s.late = {l}; add(suite, s, thorough ? 2 : (k == 2 ? 2 : 1), flavour); }
+            }
         }
         if (thorough) {
             const char *shapes2[][2] = {{"R", "W,R,R,W"}, {"W", "R,W,R,W"}, {"W", "R,R,W,R"}};
